@@ -722,8 +722,8 @@ func main() {
 				for i, v := range idx {
 					reps[i] = v + 1
 				}
-				if (!thorough && len(lens) >= 2 && k > 4) || (len(lens) == 3 && k > 4) {
-					return false // quick: two/three-rule policies over at most 4 distinct nodes (thorough: three-rule only)
+				if len(lens) == 3 && k > 4 {
+					return false // three-rule policies over at most 4 distinct nodes
 				}
 				p := policy{Lists: lists, Reps: reps}
 				kinds := repKinds
@@ -922,7 +922,7 @@ func main() {
 	r.Set("outcome_classes", len(classes))
 	r.Set("outcome_class_counts", cl)
 	r.Set("policies", map[string]int{"one_rep_rule": nMain1, "two_rep_rules": nMain2, "three_rep_rules": nMain3, "ec": nEC})
-	r.Rule(fmt.Sprintf("policies up to renaming of the 5 universe nodes (lists = ordered tuples of distinct nodes, overlapping in every way): 1 REP rule lists 1..4 copies 1..4; 2 REP rules lists 1..4 copies 1..4; 3 REP rules lists 1..%d copies 1..%d (3-rule policies use at most 4 distinct nodes; quick: 2-rule policies too, and lists of 4 only with the trusted kind); EC-only 2/1 and 1/1 (one rule over total..%d nodes, two rules incl. identical ones over total..3 nodes); for REP policies whose copies sum to <= %d (one rule: 4) and the smaller EC policies EVERY valid initial placement policy (all limit vectors, every MaxReplicas, PreferLocal on/off); x object kind (trusted REGULAR = node-side EC, client-sealed REGULAR, LOCK broadcast, sealed EC part of every rule/index) x local node = every node of the policy or none x ALL 2^n healthy-node vectors. distinct non-trivial = distinct cases with a mixed healthy vector (neither all nor none) in which at least one node was contacted", max3, rep3, maxEC, initSum))
+	r.Rule(fmt.Sprintf("policies up to renaming of the 5 universe nodes (lists = ordered tuples of distinct nodes, overlapping in every way): 1 REP rule lists 1..4 copies 1..4; 2 REP rules lists 1..4 copies 1..4; 3 REP rules lists 1..%d copies 1..%d (3-rule policies use at most 4 distinct nodes; quick: 2-rule lists of 4 only with the trusted kind); EC-only 2/1 and 1/1 (one rule over total..%d nodes, two rules incl. identical ones over total..3 nodes); for REP policies whose copies sum to <= %d (one rule: 4) and the smaller EC policies EVERY valid initial placement policy (all limit vectors, every MaxReplicas, PreferLocal on/off); x object kind (trusted REGULAR = node-side EC, client-sealed REGULAR, LOCK broadcast, sealed EC part of every rule/index) x local node = every node of the policy or none x ALL 2^n healthy-node vectors. distinct non-trivial = distinct cases with a mixed healthy vector (neither all nor none) in which at least one node was contacted", max3, rep3, maxEC, initSum))
 	r.Exhaustive(!expired.Load())
 	r.Assume("each node answers deterministically (stores everything it is sent or refuses everything); the real code contacts nodes concurrently (WaitGroup.Go / errgroup), one Go-scheduler interleaving is observed per case - the oracle is schedule-independent (it only uses who acknowledged what)",
 		"the distribution target is assembled by an injected constructor mirroring Streamer.newDistrubutedWriter and driven like slicingTarget drives it (EC split modifier, WriteHeader, Write, Close); payload slicing, signature/format validation and the on-chain meta collection are outside this check",
